@@ -130,8 +130,6 @@ def judge_line(line, impl):
 
 def run(chk):
     quick = chk.tier == "quick"
-    tr.generate()
-    T = Table()
     chk.rule = ("configurations (algorithm x hyper-parameters x lr-scaling / weight decay / clipping / epoch settings x model tree of 1-3 "
                 "parameters with hierarchical names) generated from one PRNG; an uninterrupted run of N steps (gradients of a "
                 "deterministic quadratic loss through a fresh Graph per step); at the cut points a real Optimizer::save + "
@@ -140,8 +138,9 @@ def run(chk):
                 "the same data and compared with it after every step inside the harness: raw bits (same backend, clipping off) or "
                 "within 2^-18 (clipping on, cross-backend). quick: 60 configurations, N <= 5, 2 cuts; thorough: 500 configurations, "
                 "N = 12, a cut at every step (all k + n <= 12). The same lines run on the Lean model (checkpoint/restore of "
-                "Model/Resume.lean) and on the specification engine. Non-trivial = the call succeeded; distinct = distinct lines.")
-    chk.obligations(MODS, drivers=["optim"])
+                "Model/Resume.lean). Non-trivial = the call succeeded; distinct = distinct lines.")
+    ol.obligations_with_gen(chk, MODS, tr.generate, tr.OUT)
+    T = Table()
     hists = []
     if os.path.exists(CORPUS):
         cur = []
@@ -182,7 +181,9 @@ def run(chk):
             streams.append(cur); cur = []
     if cur:
         streams.append(cur)
-    R = ol.Runner(chk, judge_line=judge_line)
+    # only C15's own verdicts are judged here (resumed != uninterrupted, restore fails, crash); whether the
+    # update rules are the right ones is C12
+    R = ol.Runner(chk, judge_line=judge_line, use_spec=False)
     dis, judged, crashes = R.correspond(streams, timeout=900)
     cmp_lines = [(l, o) for lines, impl in R.streams_out for l, o in zip(lines, impl) if l.startswith(("same ", "osame "))]
     chk.extra_cov["configurations"] = len(hists)
@@ -191,7 +192,7 @@ def run(chk):
     chk.extra_cov["of_those_bit_exact_mode"] = len([1 for l, o in cmp_lines if " bits " in l])
     chk.extra_cov["of_those_equal"] = len([1 for l, o in cmp_lines if o == "ok same"])
     chk.extra_cov["max_relative_deviation_impl_vs_model_float32"] = R.model_cmp.max_dev
-    report_violations(chk, judged, quick)
+    report_violations(chk, judged, quick, use_spec=False, judge_line=judge_line, expected="verdict:")
     if not chk.violations:
         for d in dis:
             hist = cut_history(d["lines"])
